@@ -331,3 +331,7 @@ def run(ctx):
     r3_per_element(ctx)
     r4_handler_iff_survived(ctx)
     r5_who_may_call(ctx)
+    # (R6) what the handler and the elements emit during the event leaves in program order: the event buffer is only appended to and
+    # drained front to back (shared with C03.R3)
+    from .C03 import r3_emission_order
+    r3_emission_order(ctx, rule='C14.R6')
